@@ -762,9 +762,15 @@ impl PreferenceManager {
                 self.set_speech_files(&language_dir, changed_value, None)?
             },
             "SpeechStyle" => {
-                let language = self.pref_to_string("Language");
-                let language = if language.as_str() == "Auto" {"en"} else {language.as_str()};       // avoid 'temp value dropped while borrowed' error
-                self.set_style_file(&language_dir, language, changed_value)?
+                let mut language = self.pref_to_string("Language");
+                if language.as_str() == "Auto" {
+                    // the language in use is the one "LanguageAuto" names (see above); "en" only if it was never set
+                    language = self.pref_to_string("LanguageAuto");
+                    if language.is_empty() || language == NO_PREFERENCE || language == "Auto" {
+                        language = "en".to_string();
+                    }
+                }
+                self.set_style_file(&language_dir, &language, changed_value)?
             },
             "BrailleCode" => {
                 let braille_dir = self.rules_dir.to_path_buf().join("Braille");
